@@ -5,7 +5,7 @@ import PV.Lemmas.Fold
 C07 — foldfilter splits within the width and reassembles losslessly.
 -/
 namespace PV.Props.C07
-open PV.Fold PV.Utf8
+open PV.Fold PV.Utf8 PV.Lemmas.Fold
 
 /-- valid UTF-8 input line -/
 def Valid (line : List UInt8) : Prop := isUTF8 line = true
@@ -15,20 +15,28 @@ def Valid (line : List UInt8) : Prop := isUTF8 line = true
     delimiter runs concatenate to exactly the original line. -/
 theorem wrap_lossless (line : List UInt8) (o : Opts) (hv : Valid line) (hw : 1 ≤ o.width) :
     ∃ ps, wrapLines line o = some ps ∧ ps.flatMap (fun (p, d) => p ++ d) = line := by
-  sorry
+  obtain ⟨ps, h, hcat, _⟩ := wrapLines_spec line o ((isUTF8_iff_WF line).mp hv) hw
+  exact ⟨ps, h, by rw [pairFun_eq]; exact hcat⟩
 
 /-- Every piece handed to the child is at most WIDTH bytes long, a single code point longer
     than WIDTH excepted. -/
 theorem pieces_within_width (line : List UInt8) (o : Opts) (hv : Valid line) (hw : 1 ≤ o.width)
     (ps : List (List UInt8 × List UInt8)) (h : wrapLines line o = some ps) :
     ∀ pd ∈ ps, pd.1.length ≤ o.width ∨ ∃ c, decodeAll pd.1 = some [c] := by
-  sorry
+  obtain ⟨ps', h', _, hit, _⟩ := wrapLines_spec line o ((isUTF8_iff_WF line).mp hv) hw
+  rw [h] at h'; cases h'
+  intro pd hpd
+  exact (hit pd hpd).1
 
 /-- No piece and no withheld run splits a code point. -/
 theorem pieces_on_boundaries (line : List UInt8) (o : Opts) (hv : Valid line) (hw : 1 ≤ o.width)
     (ps : List (List UInt8 × List UInt8)) (h : wrapLines line o = some ps) :
     ∀ pd ∈ ps, isUTF8 pd.1 = true ∧ isUTF8 pd.2 = true := by
-  sorry
+  obtain ⟨ps', h', _, hit, _⟩ := wrapLines_spec line o ((isUTF8_iff_WF line).mp hv) hw
+  rw [h] at h'; cases h'
+  intro pd hpd
+  obtain ⟨_, h1, _, h2⟩ := hit pd hpd
+  exact ⟨(isUTF8_iff_WF _).mpr h1, (isUTF8_iff_WF _).mpr (DelimRun_WF h2)⟩
 
 /-- The runs withheld under -s consist of delimiter characters only; without -s nothing is
     withheld. -/
@@ -36,26 +44,32 @@ theorem withheld_only_delims (line : List UInt8) (o : Opts) (hv : Valid line) (h
     (ps : List (List UInt8 × List UInt8)) (h : wrapLines line o = some ps) :
     ∀ pd ∈ ps, (o.keep = true → pd.2 = []) ∧
       ∃ cs, decodeAll pd.2 = some cs ∧ ∀ c ∈ cs, c ∈ o.delims := by
-  sorry
+  obtain ⟨ps', h', _, hit, _⟩ := wrapLines_spec line o ((isUTF8_iff_WF line).mp hv) hw
+  rw [h] at h'; cases h'
+  intro pd hpd
+  obtain ⟨_, _, h1, h2⟩ := hit pd hpd
+  exact ⟨h1, DelimRun_decodeAll h2⟩
 
 /-- There is always at least one piece (so the record count sent to the reader thread is never
     the end-of-input marker 0), and only the empty line yields an empty piece. -/
 theorem pieces_nonempty (line : List UInt8) (o : Opts) (hv : Valid line) (hw : 1 ≤ o.width)
     (ps : List (List UInt8 × List UInt8)) (h : wrapLines line o = some ps) :
     ps ≠ [] ∧ (line ≠ [] → ∀ pd ∈ ps, pd.1 ≠ []) := by
-  sorry
+  obtain ⟨ps', h', _, _, hne, hall⟩ := wrapLines_spec line o ((isUTF8_iff_WF line).mp hv) hw
+  rw [h] at h'; cases h'
+  exact ⟨hne, hall⟩
 
 /-- An identity child reproduces the input exactly, line for line (this uses that the reader
     thread does not strip carriage returns: `Gen.foldfilterCollectStripCr = false`). -/
 theorem identity_child_roundtrip (lines : List (List UInt8)) (o : Opts) (hw : 1 ≤ o.width)
     (hv : ∀ l ∈ lines, Valid l) : foldfilter id o lines = some lines := by
-  sorry
+  exact foldfilter_id o hw lines (fun l hl => (isUTF8_iff_WF l).mp (hv l hl))
 
 /-- Input and output line counts always match, whatever the child answers. -/
 theorem line_counts_match (child : List UInt8 → List UInt8) (lines : List (List UInt8)) (o : Opts)
     (hw : 1 ≤ o.width) (hv : ∀ l ∈ lines, Valid l) :
     ∃ out, foldfilter child o lines = some out ∧ out.length = lines.length := by
-  sorry
+  exact foldfilter_length child o hw lines (fun l hl => (isUTF8_iff_WF l).mp (hv l hl))
 
 -- non-vacuity: the two boundary cases the property singles out
 example : wrapLines [97, 97, 97, 97, 0xE2, 0x82, 0xAC] ⟨5, true, [58, 44, 32, 45, 46, 47]⟩ =
